@@ -23,9 +23,9 @@ def check(ctx, src):
     rq = readerq.Reader(src)
     ps = rq.methods["prefixed_string"][1]
     qc = next((n for n in ast.walk(ps) if isinstance(n, ast.FunctionDef) and n.name == "quote_closing"), None)
-    ctx.require(qc is not None, "quote_closing not found")
+    ctx.need(qc is not None, "quote_closing not found")
     chk = pyq.contains(qc, lambda n: isinstance(n, ast.If) and pyq.contains(n.body, lambda x: isinstance(x, ast.Raise) and "invalid escape sequence" in norm(x)) is not None)
-    ctx.require(chk is not None, "escape check not found")
+    ctx.need(chk is not None, "escape check not found")
     conj = [norm(v) for v in chk.test.values] if isinstance(chk.test, ast.BoolOp) and isinstance(chk.test.op, ast.And) else []
     toggle = pm.find(qc, "esc = not esc")
     esc = toggle.targets[0].id if toggle is not None else None
